@@ -51,8 +51,9 @@ func runC04(c *core.Ctx) error {
 	r4 := c.NewRule("R04.4", "S2", "arrays decoded with d.Arr start from a non-nil empty slice", 100)
 	r5 := c.NewRule("R04.5", "S2", "struct codecs: encodeFields keys = Decode case labels = name table, same order; optional members written under Set", 500)
 	r6 := c.NewRule("R04.6", "S2", "sum types: Encode and Decode agree on variant tags; inference is value-independent", 10)
+	r7 := c.NewRule("R04.7", "S2", "generated encoders: on every path a value follows a written key before the next key, the end of the object or the return", 500)
 	if err != nil {
-		for _, r := range []*core.Rule{r3, r4, r5, r6} {
+		for _, r := range []*core.Rule{r3, r4, r5, r6, r7} {
 			r.Undecided("expand", "-", trimPosMsg(err.Error(), 500))
 		}
 		return nil
@@ -63,6 +64,7 @@ func runC04(c *core.Ctx) error {
 		checkStructKeys(c, r5, exp, fx)
 		checkSumTypes(c, r6, exp, fx)
 		checkDiscriminatedInlining(c, r6, exp, fx)
+		checkValueFollowsKey(c, r7, exp, fx)
 	}
 	return nil
 }
@@ -1455,6 +1457,114 @@ func checkDiscriminatedInlining(c *core.Ctx, r *core.Rule, exp *core.Expansion, 
 				r.Pass(fmt.Sprintf("%s: every member the variant's own encoder writes is inlined under the discriminator", key))
 			} else {
 				r.Fail("discriminated-inline:"+key, c.Pos(cc.Pos()), fmt.Sprintf("%s.encodeFields writes variant %s without its members %v, which %s.encodeFields (and the decoder) handle: they are lost on encode", tn, variant, missing, variant))
+			}
+		}
+	}
+}
+
+// ---------------------------------------------------------------- R04.7
+
+// checkValueFollowsKey (R04.7, S2). Well-formedness of what the generated encoders write has one local necessary
+// condition that is visible in the shape of the code: after `e.FieldStart(k)` has written `"k":`, every path writes a
+// value with the same encoder before it writes the next key, closes the object or leaves the function — otherwise the
+// output is `{"k":}` or `{"k":,"j":…}`, which no JSON parser accepts, whatever the value was. A "write" is any call
+// that receives the *jx.Encoder (as receiver or argument) other than FieldStart / ObjEnd / ArrEnd. The rule follows
+// the flow graph of every function of the expansion that calls FieldStart; loops are followed back to their head, so
+// the key written by one iteration of a map encoder must have its value before the next iteration's key.
+func checkValueFollowsKey(c *core.Ctx, r *core.Rule, exp *core.Expansion, fx *core.Fixture) {
+	pkg := exp.Prog.ByPath[fx.PkgPath]
+	if pkg == nil {
+		return
+	}
+	isEnc := func(t types.Type) bool {
+		p, ok := t.Underlying().(*types.Pointer)
+		if !ok {
+			return false
+		}
+		n, ok := types.Unalias(p.Elem()).(*types.Named)
+		return ok && n.Obj().Name() == "Encoder" && n.Obj().Pkg() != nil && n.Obj().Pkg().Path() == "github.com/go-faster/jx"
+	}
+	// classify a call: "key", "close", "write", ""
+	classify := func(in ssa.Instruction) string {
+		call, ok := in.(ssa.CallInstruction)
+		if !ok {
+			return ""
+		}
+		cc := call.Common()
+		uses := false
+		for _, a := range cc.Args {
+			if isEnc(a.Type()) {
+				uses = true
+			}
+		}
+		if cc.IsInvoke() && isEnc(cc.Value.Type()) {
+			uses = true
+		}
+		if !uses {
+			return ""
+		}
+		if cal := cc.StaticCallee(); cal != nil && cal.Signature.Recv() != nil && isEnc(cal.Signature.Recv().Type()) {
+			switch cal.Name() {
+			case "FieldStart":
+				return "key"
+			case "ObjEnd", "ArrEnd":
+				return "close"
+			}
+		}
+		return "write"
+	}
+	for _, top := range core.PkgFuncs(exp.Prog.SSA, pkg) {
+		for _, fn := range core.AllFuncs(top) {
+			for _, b := range fn.Blocks {
+				for i, in := range b.Instrs {
+					if classify(in) != "key" {
+						continue
+					}
+					// forward search for a path that meets a key / close / return before a write
+					type pos struct {
+						b *ssa.BasicBlock
+						i int
+					}
+					seen := map[*ssa.BasicBlock]bool{}
+					stack := []pos{{b, i + 1}}
+					bad := ""
+					var badPos token.Pos
+					for len(stack) > 0 && bad == "" {
+						p := stack[len(stack)-1]
+						stack = stack[:len(stack)-1]
+						done := false
+						for j := p.i; j < len(p.b.Instrs) && !done; j++ {
+							x := p.b.Instrs[j]
+							switch classify(x) {
+							case "write":
+								done = true
+							case "key":
+								bad, badPos, done = "the next key is written", x.Pos(), true
+							case "close":
+								bad, badPos, done = "the object is closed", x.Pos(), true
+							default:
+								if _, isRet := x.(*ssa.Return); isRet {
+									bad, badPos, done = "the function returns", in.Pos(), true
+								}
+							}
+						}
+						if done {
+							continue
+						}
+						for _, s := range p.b.Succs {
+							if !seen[s] {
+								seen[s] = true
+								stack = append(stack, pos{s, 0})
+							}
+						}
+					}
+					key := fmt.Sprintf("value-after-key:%s/%s", fx.Name, fnKey(fn))
+					if bad == "" {
+						r.Ob(true, "")
+					} else {
+						r.Fail(key, c.Pos(in.Pos()), fmt.Sprintf("%s: after FieldStart there is a path on which %s before any value is written (at %s): the output is `\"k\":` with nothing after it, malformed JSON for a value the type admits (e.g. an empty jx.Raw as a map value)", fn.Name(), bad, c.Pos(badPos)))
+					}
+				}
 			}
 		}
 	}
